@@ -1,0 +1,10 @@
+//go:build verif
+
+package utils
+
+// Contracts checked by /verif (lsvc). This file contains comments only and is
+// compiled only with the build tag "verif".
+
+//@ func SleepContext
+//@   trusted
+//@   pure
